@@ -302,7 +302,7 @@ def extract(unit, enums, sigs):
     body = splice_loops(body, unit.get('loops', {}), cname)
     dflt = unit.get('ret_default')
     if dflt is None:
-        dflt = default_for(ret_c)
+        dflt = default_for(ret_c) if ret_c not in unit.get('classes', ()) or ret_c == 'NDSize' else '(%s){0}' % ret_c
     text = '/* extracted from %s:%d-%d by vlib/cxx2c.py -- do not edit */\n' % (unit['file'], line0, line1)
     text += '#undef NIX_RET_DEFAULT\n#define NIX_RET_DEFAULT %s\n' % dflt
     text += derived + '\n' + body + '\n'
@@ -361,6 +361,13 @@ def r_members(ctx, toks, cls, funcs, datas):
                 if e > i + 2:
                     out.append(P(',', ''))
                 i += 2; fire(ctx, 'member-call'); continue
+            if t.t in datas and i + 1 < n and toks[i + 1].t == '(' and t.t in ctx.unit.get('member_functors', {}):
+                # data member that is a function object: m(args) -> Functor_call(self, args)
+                e = match_close(toks, i + 1)
+                out.append(Tok('id', ctx.unit['member_functors'][t.t], t.ws)); out.append(P('(', '')); out.append(I('self', ''))
+                if e > i + 2:
+                    out.append(P(',', ''))
+                i += 2; fire(ctx, 'member-functor-call'); continue
             if t.t in datas and not (i + 1 < n and toks[i + 1].t == '('):
                 out.extend([I('self', t.ws), P('->', ''), Tok('id', t.t, '')]); i += 1; fire(ctx, 'member-data'); continue
         out.append(t); i += 1
